@@ -131,3 +131,8 @@ Proof.
   destruct Hr as [->|[->|[->|[->|[->| ->]]]]];
     [apply f_add_valid|apply f_sub_valid|apply f_mul_valid|apply f_div_valid|apply f_rem_valid|apply f_neg_valid]; assumption.
 Qed.
+
+(** the two ends joined: a literal the lexer accepts, unless it overflowed to an infinity or is NaN, prints *)
+Theorem finite_literals_print rest line file v n :
+  consume_num rest line file = Ok (v, n) -> finite64 v -> exists s, to_bn_num v = Some s.
+Proof. intros H [Hi Hn]. exact (valid_numbers_print v (literal_valid _ _ _ _ _ H) Hi Hn). Qed.
